@@ -12,6 +12,7 @@ package main
 //   P2  x, y := h(args)   /  x = h(args)         helper whose only return is its last statement
 //   P3  if v, ok := h(args); ok { BODY }         helper returning (…, true) anywhere and (…, false)
 //       if h(args) { BODY }                      only as its last statement; BODY ends in return/panic
+//       if !h(args) { BODY }                     the mirror image: (…, false) anywhere, (…, true) last
 //   P4  return h(args)                           helper's results are the caller's results
 //
 // Anything else stays a call (and the rules that need to look further follow it themselves).
@@ -23,9 +24,9 @@ import (
 	"fmt"
 	"go/ast"
 	"go/printer"
-	"os"
 	"go/token"
 	"go/types"
+	"os"
 	"reflect"
 )
 
@@ -38,7 +39,7 @@ var inlineKeep = map[string]bool{
 }
 
 type inliner struct {
-	keep map[*ast.FuncDecl]bool // declarations of the synthetic prelude
+	keep  map[*ast.FuncDecl]bool // declarations of the synthetic prelude
 	info  *types.Info
 	pkg   *types.Package
 	decls map[*types.Func]*ast.FuncDecl
@@ -295,12 +296,15 @@ func endsInReturnOrPanic(info *types.Info, list []ast.Stmt) bool {
 
 // bind prepares the parameter/receiver/local renaming for one expansion of h at call and returns
 // the prologue statements (bindings of non-trivial arguments) and the substitution to clone with.
-func (in *inliner) bind(h *ast.FuncDecl, call *ast.CallExpr) (prologue []ast.Stmt, subst func(ast.Node) ast.Node, ok bool) {
+func (in *inliner) bind(h *ast.FuncDecl, call *ast.CallExpr, adopt map[types.Object]*types.Var) (prologue []ast.Stmt, subst func(ast.Node) ast.Node, ok bool) {
 	info := in.info
 	in.fresh++
 	suffix := fmt.Sprintf("ʹ%d", in.fresh)
-	repl := map[types.Object]ast.Expr{}      // parameter => argument expression (cloned per use)
+	repl := map[types.Object]ast.Expr{}     // parameter => argument expression (cloned per use)
 	rename := map[types.Object]*types.Var{} // helper local/param => fresh variable
+	for o, v := range adopt {
+		rename[o] = v // a helper local that becomes the caller's own variable
+	}
 	assigned := map[types.Object]bool{}
 	ast.Inspect(h.Body, func(n ast.Node) bool {
 		switch x := n.(type) {
@@ -334,6 +338,12 @@ func (in *inliner) bind(h *ast.FuncDecl, call *ast.CallExpr) (prologue []ast.Stm
 			return isId && info.Selections[x] != nil && info.Selections[x].Kind() == types.FieldVal
 		case *ast.BasicLit:
 			return true
+		case *ast.CallExpr:
+			// a conversion of a plain variable
+			if tv, ok := info.Types[x.Fun]; ok && tv.IsType() && len(x.Args) == 1 {
+				_, isId := ast.Unparen(x.Args[0]).(*ast.Ident)
+				return isId
+			}
 		}
 		return false
 	}
@@ -475,7 +485,7 @@ func (in *inliner) expandStmt(st ast.Stmt) []ast.Stmt {
 		if len(rets) > 1 || (len(rets) == 1 && rets[0] != last) {
 			return nil
 		}
-		pro, subst, ok := in.bind(h, call)
+		pro, subst, ok := in.bind(h, call, nil)
 		if !ok {
 			return nil
 		}
@@ -505,7 +515,50 @@ func (in *inliner) expandStmt(st ast.Stmt) []ast.Stmt {
 		if len(rets) != 1 || rets[0] != last || len(last.Results) != len(x.Lhs) {
 			return nil
 		}
-		pro, subst, ok := in.bind(h, call)
+		// `v := h()` where h returns one of its own top-level locals: that local becomes v itself
+		// (no alias is introduced)
+		adopt := map[types.Object]*types.Var{}
+		adopted := map[int]bool{}
+		if x.Tok == token.DEFINE {
+			topLocal := map[types.Object]bool{}
+			for _, st := range h.Body.List {
+				switch y := st.(type) {
+				case *ast.AssignStmt:
+					if y.Tok == token.DEFINE {
+						for _, lh := range y.Lhs {
+							if id, ok := lh.(*ast.Ident); ok && info.Defs[id] != nil {
+								topLocal[info.Defs[id]] = true
+							}
+						}
+					}
+				case *ast.DeclStmt:
+					ast.Inspect(y, func(m ast.Node) bool {
+						if vs, ok := m.(*ast.ValueSpec); ok {
+							for _, nm := range vs.Names {
+								if info.Defs[nm] != nil {
+									topLocal[info.Defs[nm]] = true
+								}
+							}
+						}
+						return true
+					})
+				}
+			}
+			for i, r := range last.Results {
+				rid, ok1 := ast.Unparen(r).(*ast.Ident)
+				lid, ok2 := x.Lhs[i].(*ast.Ident)
+				if !ok1 || !ok2 || lid.Name == "_" {
+					continue
+				}
+				ro := info.Uses[rid]
+				lv, isVar := info.Defs[lid].(*types.Var)
+				if ro != nil && topLocal[ro] && isVar && adopt[ro] == nil {
+					adopt[ro] = lv
+					adopted[i] = true
+				}
+			}
+		}
+		pro, subst, ok := in.bind(h, call, adopt)
 		if !ok {
 			return nil
 		}
@@ -513,8 +566,19 @@ func (in *inliner) expandStmt(st ast.Stmt) []ast.Stmt {
 		l := body.List
 		ret := l[len(l)-1].(*ast.ReturnStmt)
 		l = l[:len(l)-1]
-		as := &ast.AssignStmt{Lhs: x.Lhs, TokPos: x.TokPos, Tok: x.Tok, Rhs: ret.Results}
-		return append(append(pro, l...), as)
+		var lhs2, rhs2 []ast.Expr
+		for i := range x.Lhs {
+			if adopted[i] {
+				continue
+			}
+			lhs2 = append(lhs2, x.Lhs[i])
+			rhs2 = append(rhs2, ret.Results[i])
+		}
+		out := append(pro, l...)
+		if len(lhs2) > 0 {
+			out = append(out, &ast.AssignStmt{Lhs: lhs2, TokPos: x.TokPos, Tok: x.Tok, Rhs: rhs2})
+		}
+		return out
 	case *ast.ReturnStmt: // P4
 		if len(x.Results) != 1 {
 			return nil
@@ -531,7 +595,7 @@ func (in *inliner) expandStmt(st ast.Stmt) []ast.Stmt {
 		if last == nil {
 			return nil
 		}
-		pro, subst, ok := in.bind(h, call)
+		pro, subst, ok := in.bind(h, call, nil)
 		if !ok {
 			return nil
 		}
@@ -544,6 +608,7 @@ func (in *inliner) expandStmt(st ast.Stmt) []ast.Stmt {
 		var call *ast.CallExpr
 		var lhs []ast.Expr
 		var tok token.Token
+		bodyFlag, fallFlag := "true", "false"
 		if x.Init != nil {
 			as, ok := x.Init.(*ast.AssignStmt)
 			if !ok || len(as.Rhs) != 1 || as.Tok != token.DEFINE {
@@ -551,12 +616,23 @@ func (in *inliner) expandStmt(st ast.Stmt) []ast.Stmt {
 			}
 			call, _ = ast.Unparen(as.Rhs[0]).(*ast.CallExpr)
 			lhs, tok = as.Lhs, as.Tok
-			// the condition is the last variable
-			if call == nil || len(lhs) == 0 || usesObj(info, x.Cond) == nil || usesObj(info, x.Cond) != usesObj(info, lhs[len(lhs)-1]) {
+			// the condition is the last variable, possibly negated
+			cond := ast.Unparen(x.Cond)
+			if u, isNot := cond.(*ast.UnaryExpr); isNot && u.Op == token.NOT {
+				cond = ast.Unparen(u.X)
+				bodyFlag, fallFlag = "false", "true"
+			}
+			if call == nil || len(lhs) == 0 || usesObj(info, cond) == nil || usesObj(info, cond) != usesObj(info, lhs[len(lhs)-1]) {
 				return nil
 			}
 		} else {
-			call, _ = ast.Unparen(x.Cond).(*ast.CallExpr)
+			cond := ast.Unparen(x.Cond)
+			if u, isNot := cond.(*ast.UnaryExpr); isNot && u.Op == token.NOT {
+				// if !h(args) { BODY }: BODY replaces the `return false`s, `return true` falls through
+				cond = ast.Unparen(u.X)
+				bodyFlag, fallFlag = "false", "true"
+			}
+			call, _ = cond.(*ast.CallExpr)
 		}
 		if call == nil {
 			return nil
@@ -579,15 +655,15 @@ func (in *inliner) expandStmt(st ast.Stmt) []ast.Stmt {
 			}
 			flag := exprString(ast.Unparen(r.Results[nRes-1]))
 			if r == last {
-				if flag != "false" {
+				if flag != fallFlag {
 					return nil
 				}
-			} else if flag != "true" {
+			} else if flag != bodyFlag {
 				return nil
 			}
 		}
 		// the variables bound by the init statement must not be used after the if
-		pro, subst, ok := in.bind(h, call)
+		pro, subst, ok := in.bind(h, call, nil)
 		if !ok {
 			return nil
 		}
